@@ -125,6 +125,8 @@ def run_case(case):
     for x in v:
         x['detail'].update(opts=opts, plan=plan)
     viol += v
+    import common
+    viol += common.contract_viols(events)[:3]
     model = oracles.LayerModel(spec, plan)
     parent = next((e['pid'] for e in events if e['k'] == 'run.enter'), None)
     lf = plan.get('layers') or {}
